@@ -227,3 +227,47 @@ func ZZH10Init() {
 	}
 	sym.Cover("end")
 }
+
+// ZZH4dTokenInterceptors: pass-through token interceptors are called once per
+// token with the lexer positioned on the lexeme's first byte, and leave the
+// token stream unchanged (C04, lexer part). Whole small inputs, two tokens.
+func ZZH4dTokenInterceptors() {
+	K := sym.Param("K", 4)
+	n := sym.Choose("len", K+1)
+	w := sym.String("w", n)
+	k := 1 + sym.Choose("interceptors", 2)
+	type entry struct {
+		id, line, col, pos int
+		ch                 byte
+	}
+	var log []entry
+	b := NewBuilder()
+	for i := 0; i < k; i++ {
+		id := i
+		b.UseTokenInterceptor(func(l *Lexer, next func() token.Token) token.Token {
+			log = append(log, entry{id, l.Line, l.Column, l.position, l.CurrentChar})
+			return next()
+		})
+	}
+	plain := NewBuilder().Build(w)
+	l := b.Build(w)
+	steps := sym.Param("steps", 2)
+	for sidx := 0; sidx < steps; sidx++ {
+		before := len(log)
+		want := plain.NextToken()
+		got := l.NextToken()
+		sym.Observe("tok", int(got.Type), got.Literal, got.Start.Line, got.Start.Column)
+		sym.Assert(got.Type == want.Type && sym.EqStr(got.Literal, want.Literal), "token-unchanged")
+		sym.Assert(got.Start == want.Start && got.End == want.End && got.AfterNewline == want.AfterNewline, "token-position-unchanged")
+		sym.Assert(len(log)-before == k, "each-interceptor-called-once-per-token")
+		for _, e := range log[before:] {
+			sym.Assert(sym.And(e.line == got.Start.Line, e.col == got.Start.Column), "lexer-positioned-on-first-byte-of-lexeme")
+			if e.pos < len(w) {
+				sym.Assert(e.ch == w[e.pos], "current-char-is-first-byte-of-lexeme")
+			} else {
+				sym.Assert(got.Type == token.EOF, "interceptor-at-end-only-for-eof")
+			}
+		}
+	}
+	sym.Cover("end")
+}
